@@ -72,6 +72,10 @@ func runC01(c *fw.Case) {
 			return mainAddr
 		case model.KModule:
 			return chain.ModuleAddr(a.ID)
+		case model.KBase:
+			// one account whichever way its address is spelled (bech32 is all lower or all upper
+			// case): the bank sweeps it once per block, the model must not see two accounts
+			return strings.ToLower(a.ID)
 		}
 		return a.ID
 	}
@@ -180,7 +184,7 @@ func runC01(c *fw.Case) {
 		}
 		dm.Unowed.Sub(sumOwed)
 		dm.Paid = map[string]model.Coins{}
-		dm.Block(subs, addrOf, func(key string) bool { return key == model.KBase+"-"+r.dk.blocked }, nil)
+		dm.Block(subs, addrOf, func(key string) bool { return strings.HasPrefix(key, model.KBase+"-") && strings.EqualFold(key, model.KBase+"-"+r.dk.blocked) }, nil)
 		predicted := dm.Paid[model.BurnKey]
 		for d := range unionKeysRat(predicted, led.Burned) {
 			pv := new(big.Int)
@@ -202,7 +206,7 @@ func runC01(c *fw.Case) {
 					c.Count("burn_ambiguous", 1)
 					continue
 				}
-				c.ViolateD("C01/burn-vs-model", map[string]string{"denom": d, "predicted": pv.String(), "burned": bv.String()}, "block %d: %s %s burned, the distributor model predicts %s", b, bv, short(d, 10), pv)
+				c.ViolateD("C01/burn-vs-model", map[string]string{"denom": d, "predicted": pv.String(), "burned": bv.String(), "subs": fmt.Sprint(toModelSubsStrings(n.App.CfedistributorKeeper.GetParams(n.Ctx()).SubDistributors)), "pre_states": fmt.Sprint(preStates), "src_spendable": fmt.Sprint(srcSpendable), "main_pre": fmt.Sprint(pre.Balances[mainAddr]), "minted": minted.String()}, "block %d: %s %s burned, the distributor model predicts %s", b, bv, short(d, 10), pv)
 			}
 		}
 		if len(led.Burned) > 0 {
